@@ -2,7 +2,7 @@ import SqVerif.VNetWFNew
 /-
 L2 — `local_merge_regs` preserves well-formedness (C02).
 -/
-namespace SqVerif.VNet
+namespace SqVerif.VNet.WFP
 open List
 
 /-- the absorbing register after `local_merge_regs` -/
@@ -359,4 +359,4 @@ theorem localMerge_cases {s : Net} {n o1 o2 : Nat} {nd : Node} (w : WFp none s)
   · refine Or.inr ⟨he, r1, r2, hr1, hr2, hn1, hn2, ?_⟩
     exact localMerge_eq e1 e2 hn he (hn1 ▸ reg?_of_mem wn.regNumsInj hr1) (hn2 ▸ reg?_of_mem wn.regNumsInj hr2)
 
-end SqVerif.VNet
+end SqVerif.VNet.WFP
